@@ -177,7 +177,7 @@ func TestC17(t *testing.T) {
 	ck := hx.Check[c17Case]{
 		Property: "C17", Part: "pairs",
 		Rule:  "rapid-generated long ASCII / multi-byte patterns (many stars, classes, escapes) with names derived from the pattern or independent; non-trivial = malformed pattern or well-formed pattern with a metacharacter; distinct by (pattern, name)",
-		Cases: hx.Pick(20000, 2000000),
+		Cases: hx.Pick(20000, 10000000),
 		Gen:   c17Gen, Run: c17Run,
 	}
 	if hx.ReplayRequested() == "" {
